@@ -125,6 +125,15 @@ CHECKS["C10"] = dict(
         "invariant are listed as undecided. (O) into_paths answers in the caller's position order. NOT decided: that honest openings verify, "
         "from_paths/into_paths round trips, and that a changed leaf or node changes the root (collision resistance of the hash).",
    design_ref="DESIGN.md §3 C10")
+CHECKS["C01"] = dict(
+   technique="static analysis: abstract interpretation over the honest parameter range (E4), writer/reader token-grammar comparison (E7), must-pass-through on the expanded prover and verifier CFGs (E1), dataflow unit rule (E3)",
+   text="Completeness as a whole is numerical and is NOT decided. Decided are four structural necessary conditions whose violation makes the "
+        "verifier reject or panic on honest proofs: (HR) Table::from_bytes and Queries::parse neither panic nor fail independently of the bytes "
+        "for any row/column count inside the limits the constructors themselves document (1..=MAX_NUM_QUERIES, 1..=MAX_TRACE_WIDTH); (S1) every type "
+        "reachable from Proof's reader has identical writer and reader token grammars (round trip consumes exactly what was written); (T) prover "
+        "and verifier drive the public coin through the same documented event order with the absorbed value being the value carried in the "
+        "proof; (U) the prover's pre-evaluated boundary constraints use constraint-evaluation-domain units.",
+   design_ref="DESIGN.md §3 C01")
 CHECKS["C06"] = dict(
    technique="static analysis: inter-procedural, path-sensitive abstract interpretation of MIR (intervals + power-of-two + lengths + variant sets + relational facts on tagged values) with taint from the byte readers",
    text="Static proof that in Proof::from_bytes and everything it reaches, in Proof::security_level and in VerifierChannel::new with all sub-parsers "
